@@ -6,6 +6,7 @@ package main
 // a non-constant condition Interp.branch consults the decision prefix.
 
 import (
+	"os"
 	"fmt"
 	"go/constant"
 	"go/token"
@@ -16,6 +17,24 @@ import (
 
 	"golang.org/x/tools/go/ssa"
 )
+
+var profileSteps = os.Getenv("GOSYM_PROFILE") != ""
+
+func (it *Interp) dumpProfile() {
+	type kv struct {
+		k string
+		v int
+	}
+	var l []kv
+	for k, v := range it.prof {
+		l = append(l, kv{k, v})
+	}
+	sort.Slice(l, func(i, j int) bool { return l[i].v > l[j].v })
+	fmt.Fprintf(os.Stderr, "PROFILE steps=%d decisions=%d\n", it.steps, it.depth)
+	for i := 0; i < len(l) && i < 8; i++ {
+		fmt.Fprintf(os.Stderr, "  %8d %s\n", l[i].v, l[i].k)
+	}
+}
 
 type fnInfo struct {
 	idx      map[ssa.Value]int
@@ -266,6 +285,15 @@ func (it *Interp) unsupported(msg string) *abort {
 
 func (it *Interp) visitInstr(fr *frame, instr ssa.Instruction) (ret bool, jumped bool) {
 	it.steps++
+	if profileSteps {
+		if it.prof == nil {
+			it.prof = map[string]int{}
+		}
+		it.prof[fr.fn.String()]++
+		if it.steps%2000000 == 0 {
+			it.dumpProfile()
+		}
+	}
 	if it.steps > it.maxSteps {
 		panic(&abort{"unwind", fmt.Sprintf("instruction budget %d exhausted in %s", it.maxSteps, fr.fn)})
 	}
@@ -358,8 +386,28 @@ func (it *Interp) visitInstr(fr *frame, instr ssa.Instruction) (ret bool, jumped
 		v := it.ctx.zero(mustDeref(instr.Type()))
 		fr.set(instr, &v)
 	case *ssa.MakeSlice:
-		ln := it.concretizeInt(fr.get(instr.Len).(*Term), isSigned(instr.Len.Type()))
-		cp := it.concretizeInt(fr.get(instr.Cap).(*Term), isSigned(instr.Cap.Type()))
+		lt, ct := fr.get(instr.Len).(*Term), fr.get(instr.Cap).(*Term)
+		var ln, cp int64
+		if !lt.IsConst() && lt == ct {
+			// allocation whose size depends on symbolic input: remember the size term
+			// (zzrt.AllocWithin) and, when it can exceed SymMakeCap, stand in a buffer of
+			// SymMakeCap+1 cells (abstraction: sound as long as fewer than SymMakeCap+1
+			// elements can ever be filled, which the harness bounds guarantee)
+			c := it.ctx
+			sz := c.Resize(lt, 64, isSigned(instr.Len.Type()))
+			it.allocTerms = append(it.allocTerms, sz)
+			capv := int64(it.eng.cfg.SymMakeCap)
+			if it.branch(c.Ule(sz, c.BV(uint64(capv), 64))) {
+				ln = it.concretizeInt(lt, isSigned(instr.Len.Type()))
+			} else {
+				ln = capv + 1
+				it.pathNotes = append(it.pathNotes, "symbolic make size above SymMakeCap abstracted")
+			}
+			cp = ln
+		} else {
+			ln = it.concretizeInt(lt, isSigned(instr.Len.Type()))
+			cp = it.concretizeInt(ct, isSigned(instr.Cap.Type()))
+		}
 		if ln < 0 || cp < ln {
 			panic(it.throw("makeslice: len out of range"))
 		}
@@ -664,6 +712,11 @@ func (it *Interp) toArray(cells []Value) *Term {
 
 func (it *Interp) symLoad(p *SymRef) Value {
 	c := it.ctx
+	// constant tables (utf8.first, hex digits, ...): compress runs of equal entries into
+	// range tests instead of one case per index
+	if r := it.constTableLoad(p); r != nil {
+		return r
+	}
 	if p.arr {
 		return c.Select(it.toArray(p.cells), p.idx)
 	}
@@ -676,6 +729,39 @@ func (it *Interp) symLoad(p *SymRef) Value {
 		} else {
 			r = c.Ite(c.Eq(p.idx, c.BV(uint64(i), 64)), cell, r)
 		}
+	}
+	return r
+}
+
+func (it *Interp) constTableLoad(p *SymRef) *Term {
+	c := it.ctx
+	n := len(p.cells)
+	if n < 8 {
+		return nil
+	}
+	type run struct {
+		hi int // last index of the run
+		v  *Term
+	}
+	var runs []run
+	for i, cv := range p.cells {
+		t, ok := cv.(*Term)
+		if !ok || !t.IsConst() {
+			return nil
+		}
+		if len(runs) > 0 && runs[len(runs)-1].v == t {
+			runs[len(runs)-1].hi = i
+		} else {
+			runs = append(runs, run{i, t})
+		}
+		if len(runs) > 64 {
+			return nil
+		}
+	}
+	// idx is known to be in range (bounds check done by the caller)
+	r := runs[len(runs)-1].v
+	for k := len(runs) - 2; k >= 0; k-- {
+		r = c.Ite(c.Ule(p.idx, c.BV(uint64(runs[k].hi), 64)), runs[k].v, r)
 	}
 	return r
 }
